@@ -3,6 +3,21 @@
 // kafka.Dialer.DialFunc (no network), decodes requests with kafka-go's protocol
 // package and keeps ONE globally sequenced history of what happened, so that real
 // kafka.Reader values (GroupID set) can be run against it and checked afterwards.
+//
+// Notes on what differs from a literal reading of the specification:
+//   - Dial cannot know the ClientID: a Kill()ed client's dial succeeds and the
+//     connection is closed when its first request arrives (nothing is applied);
+//     DialFor(client) refuses at dial time.
+//   - Fetch long polls for min(MaxWaitTime/2, 50ms) (the legacy Conn's read deadline
+//     is only a few ms after MaxWaitTime).
+//   - The Fetch v2 response is hand-encoded (message format v1); everything else
+//     goes through protocol.ReadRequest / protocol.WriteResponse.
+//   - Members that do not send SyncGroup within the rebalance timeout after the
+//     JoinGroup responses are removed ("evict", Note "sync-timeout"), only while
+//     the group is CompletingRebalance: this bounds the held SyncGroups of the
+//     followers when the leader died.
+//   - JoinGroup with protocols incompatible with the other members is answered
+//     InconsistentGroupProtocol (23).
 package groupfake
 
 import (
@@ -233,7 +248,7 @@ func (b *Broker) dial(ctx context.Context, network, address, client string, know
 	}
 	cli, srv := net.Pipe()
 	b.connSeq++
-	c := &conn{b: b, nc: srv, id: b.connSeq, client: client, clientKnown: known, deadCh: make(chan struct{})}
+	c := &conn{b: b, nc: srv, id: b.connSeq, addr: address, client: client, clientKnown: known, deadCh: make(chan struct{})}
 	b.conns[c] = struct{}{}
 	b.wg.Add(1)
 	b.mu.Unlock()
@@ -277,7 +292,7 @@ func (b *Broker) Append(topic string, partition int, n int) int64 {
 		return ps[partition]
 	}
 	ps[partition] += int64(n)
-	b.ev(Event{Kind: "append", TPs: []TPO{{topic, partition, ps[partition]}}})
+	b.ev(Event{Kind: "append", Gen: b.g.generation, TPs: []TPO{{topic, partition, ps[partition]}}})
 	close(b.appendCh)
 	b.appendCh = make(chan struct{})
 	return ps[partition]
@@ -517,6 +532,7 @@ type conn struct {
 	b           *Broker
 	nc          net.Conn // server end
 	id          int
+	addr        string // the address that was dialled
 	client      string // guarded by b.mu until clientKnown
 	clientKnown bool
 	dead        bool // guarded by b.mu: closed by the broker (Kill, Close, drop)
@@ -530,12 +546,6 @@ func (c *conn) killLocked() {
 		close(c.deadCh)
 	}
 	c.nc.Close()
-}
-
-func (c *conn) kill() {
-	c.b.mu.Lock()
-	c.killLocked()
-	c.b.mu.Unlock()
 }
 
 func (c *conn) serve() {
@@ -680,10 +690,14 @@ func (c *conn) sleep(d time.Duration) bool {
 func (c *conn) handle(ver int16, corr int32, msg protocol.Message) bool {
 	b := c.b
 	var f Fault
-	if api, member := apiOf(msg); api != "" {
+	api, member := apiOf(msg)
+	if api != "" {
 		if ff := b.getFault(); ff != nil {
 			f = ff(api, c.client, member)
 		}
+	}
+	if b.cfg.Logf != nil && api != "fetch" && api != "heartbeat" {
+		b.cfg.Logf("groupfake: conn %d (%s -> %s) %T v%d member=%q fault=%+v", c.id, c.client, c.addr, msg, ver, member, f)
 	}
 	if f.Delay > 0 && !c.sleep(f.Delay) {
 		return false
